@@ -42,6 +42,11 @@ const EXTRAS: &[&str] = &[
     " | derive {zq10 = @2020-01-01T10:00:00, zq11 = @10:30, zq12 = 2days}",
     " | derive {zq13 = (1 | in [1, 2, 3]), zq14 = (4.0 | math.sqrt), zq15 = (\"a b\" | text.replace \" \" \"_\")}",
     " | take 3..7",
+    // recursive CTEs (loop), alone and followed by transforms that force further sub-queries
+    " | select {zn = 1} | loop (filter zn < 4 | select {zn = zn + 1})",
+    " | select {zn = 1} | loop (filter zn < 4 | select {zn = zn + 1}) | take 100 | filter zn > 1",
+    " | select {zn = 1, zm = 2} | loop (filter zn < 4 | select {zn = zn + 1, zm = zm * 2}) | group {zn} (aggregate {zs = sum zm}) | derive {zt = zs + 1} | filter zt > 2",
+    " | select {zn = 1} | loop (filter zn < 3 | select {zn = zn + 1}) | join zj = (from t1 | select {zid = 1} | take 5 | filter zid > 0) (zn == zj.zid)",
     " | filter true | take 5 | derive {zq16 = 1} | filter zq16 > 0",
 ];
 
@@ -111,6 +116,9 @@ pub fn gen_case(t: &mut Tape, hazard: Option<&'static str>, hazard_names: bool) 
     }
 }
 
+/// dialects with a column-exclusion facility (`* EXCLUDE (..)` / `* EXCEPT (..)`)
+pub const HAS_EXCLUDE: &[&str] = &["duckdb", "snowflake", "bigquery"];
+
 #[derive(PartialEq, Clone, Copy)]
 pub enum Mode {
     C07,
@@ -147,10 +155,12 @@ pub fn check(case: &Case, known: &Known, mode: Mode, hazard: bool) -> Outcome {
     let expect = rq_columns(&rq);
     let mut nontrivial = false;
     let mut compiled = 0;
-    let attribute = |what: &str, failure: &str, detail: Value| -> Outcome {
+    let attribute = |dn: &str, what: &str, failure: &str, detail: Value| -> Outcome {
         let mut o = Outcome::fail(what, detail);
         if let Some((id, why)) = c01::attribute_with(&case.base.flags, known, failure) {
-            if hazard {
+            // the wildcard findings are about dialects without a column-exclusion facility
+            let strict = id == "C05-wildcard-helper-leak" && HAS_EXCLUDE.contains(&dn);
+            if hazard && !strict {
                 o.verdict = Verdict::Known(id, why);
             }
         }
@@ -195,11 +205,19 @@ pub fn check(case: &Case, known: &Known, mode: Mode, hazard: bool) -> Outcome {
                 if mode == Mode::C05 {
                     continue; // syntax is C07's subject
                 }
-                return attribute(
+                let o = attribute(
+                    dn,
                     &format!("emitted SQL is not a single query the {dn} dialect parses"),
                     &e,
                     json!({"source": src, "dialect": dn, "sql": sql, "error": e}),
                 );
+                // a recorded finding under this dialect does not end the case: the other dialects
+                // are still decided
+                if matches!(o.verdict, Verdict::Known(..)) {
+                    out.verdict = o.verdict;
+                    continue;
+                }
+                return o;
             }
             Parsed::Ok(b) => b,
         };
@@ -223,6 +241,13 @@ pub fn check(case: &Case, known: &Known, mode: Mode, hazard: bool) -> Outcome {
             out.verdict = Verdict::Known("C07-join-rewritten-to-intersect".into(), bound.errors[0].clone());
             continue;
         }
+        if sql.contains("WITH RECURSIVE") && !bound.errors.is_empty()
+            && bound.errors.iter().any(|e| e.starts_with("set operation between"))
+            && known.is_open("C07-loop-after-sort-arity")
+        {
+            out.verdict = Verdict::Known("C07-loop-after-sort-arity".into(), bound.errors[0].clone());
+            continue;
+        }
         if sql.contains("DISTINCT ON") && !bound.errors.is_empty()
             && bound.errors.iter().all(|e| e.starts_with("ORDER BY: column _expr_"))
             && known.is_open("C07-distinct-on-computed-sort-key")
@@ -236,11 +261,17 @@ pub fn check(case: &Case, known: &Known, mode: Mode, hazard: bool) -> Outcome {
             bound.errors.retain(|e| e != "empty projection");
         }
         if mode != Mode::C05 && !bound.errors.is_empty() {
-            return attribute(
+            let o = attribute(
+                dn,
                 &format!("emitted SQL does not bind under {dn}: {}", bound.errors[0]),
                 &format!("no such column {}", bound.errors.join("; ")),
                 json!({"source": src, "dialect": dn, "sql": sql, "binder": bound.errors}),
             );
+            if matches!(o.verdict, Verdict::Known(..)) {
+                out.verdict = o.verdict;
+                continue;
+            }
+            return o;
         }
         if mode == Mode::C05 {
             if !bound.errors.is_empty() {
@@ -274,6 +305,7 @@ pub fn check(case: &Case, known: &Known, mode: Mode, hazard: bool) -> Outcome {
                     a.iter().all(|x| b.contains(x))
                 };
                 let mut o = attribute(
+                    dn,
                     &format!(
                         "result columns under {dn} are not the final frame ({})",
                         if !arity_ok { "arity" } else if order_only { "order" } else { "names" }
@@ -284,7 +316,17 @@ pub fn check(case: &Case, known: &Known, mode: Mode, hazard: bool) -> Outcome {
                 if order_only && known.is_open(F_ORDER) {
                     o.verdict = Verdict::Known(F_ORDER.into(), format!("frame {:?} vs result {:?}", want, got));
                 }
+                if matches!(o.verdict, Verdict::Known(..)) {
+                    out.verdict = o.verdict;
+                    continue;
+                }
                 return o;
+            }
+            if HAS_EXCLUDE.contains(dn) && (sql.contains(" EXCLUDE (") || sql.contains(" EXCEPT (")) {
+                out.classes.push("column_exclusion_emitted".into());
+                if sql.matches(".*").count() >= 2 {
+                    out.classes.push("column_exclusion_with_two_stars".into());
+                }
             }
         }
     }
@@ -371,8 +413,8 @@ pub fn replay_any(check_name: &str, case: &Value, known: &Known, mode: Mode) -> 
     Some(check(&c, known, mode, check_name.starts_with("hazard/")))
 }
 
-const HAZ_C07: &[&str] = &["dup_names", "neg_neg", "sorted_let", "const_group_key", "win_over_win", "dropped_key_join", "wild_let", "take_far_from_sort", "sort_by_windowed", "append_free", "group_take_sort_agg", "multi_take_agg", "open_take"];
-const HAZ_C05: &[&str] = &["dup_names", "dup_select", "shadow", "wild_helpers", "const_fold"];
+const HAZ_C07: &[&str] = &["dup_names", "neg_neg", "sorted_let", "const_group_key", "win_over_win", "dropped_key_join", "wild_let", "take_far_from_sort", "sort_by_windowed", "append_free", "group_take_sort_agg", "multi_take_agg", "open_take", "wild_dup_join"];
+const HAZ_C05: &[&str] = &["dup_names", "dup_select", "shadow", "wild_helpers", "const_fold", "wild_except_twice", "wild_except_sorted"];
 
 pub fn run_c07(ctx: &Ctx) -> i32 {
     ctx.run_replays(|c, case| replay_any(c, case, &ctx.known, Mode::C07));
@@ -427,6 +469,13 @@ pub fn run_c05(ctx: &Ctx) -> i32 {
                 }
             }
         }
+        o
+    });
+    // exclusions over wildcard frames: decided under the dialects that have EXCLUDE / EXCEPT (the
+    // others re-emit the excluded column through `*`: recorded finding, attributed per dialect)
+    ctx.tape_search("hazard/wild_except+exclude-dialects", ctx.n(3_000, 100_000), 450, |t| gen_case(t, Some("wild_except"), false), |c| {
+        let mut o = check(c, &ctx.known, Mode::C05, true);
+        o.nontrivial = o.classes.iter().any(|k| k == "column_exclusion_emitted");
         o
     });
     for h in HAZ_C05 {
